@@ -7,8 +7,8 @@
   "source": "matrixssl/tls13Decode.c",
   "keep_bodies": ["tls13ParseRecordHeader", "tls13ValidateRecordHeader", "tls13ValidateRecordType", "tls13ParseChangeCipherSpec", "tls13ParseAndHandleAlert", "tls13HandleAlert", "psParse* (core/src/psbuf.c, core/include/psbuf.h)"],
   "replace": ["tls13ParseHandshakeMessage"],
+  "replaced_contracts_enforced_in": {"tls13ParseHandshakeMessage": "C06/tls13_hs_transitions (cursor clauses C18_*; its effect on hsState/flags/err is left arbitrary here)"},
   "assumed": ["ssl->decrypt (model = the contract proved for the AEAD openers in C02: fails for records shorter than the tag, else verdict chosen by the input)",
-              "tls13ParseHandshakeMessage (contract: advances the cursor inside the record, by >= 4 bytes when it returns >= 0, to the end of the record and without key activation when it returns SSL_PARTIAL; may change hsState, flags, err, decState)",
               "tls13EncodeAlert, sslEncodeResponse (models: write only into the buffer they are given; SSL_FULL / PS_* error / success)"],
   "mode": "bounded",
   "bounds": "receive buffer of N bytes holding every len <= N received bytes with every content (N=40 quick, 72 thorough); loops unwound with unwinding assertions: padding strip N+2, ignored 6-byte ChangeCipherSpec records N/6+2, handshake messages (>= 4 bytes each) N/4+2",
